@@ -215,4 +215,35 @@ def run (c : Cfg) : St → List Ev → St × List Out
 
 def init : St := {}
 
+/-! ### several entry types on one manager
+
+The node registers one holder (with its own tracker) per entry type before `PushPullManager.Run` (gossip.go:113-118).
+The manager's counters are keyed by type + hash (`pushPullHash.String`), each tracker is drained by its own relay
+goroutine `loop(entryType, holder)`, so the types ("lanes") share nothing but the clock; every pull request put on the
+wire carries the type of the lane that produced it (`addPush`: the announced `hash.Type`; `loop`: its `entryType`). -/
+
+structure Lane where
+  typ : Nat
+  cfg : Cfg
+  st : St
+
+abbrev Node := List Lane
+
+/-- an event addressed to the lane of type `typ`; outputs are tagged with the push type they carry on the wire -/
+def laneStep (typ : Nat) (e : Ev) : Node → Node × List (Nat × Out)
+  | [] => ([], [])
+  | l :: rest =>
+    if l.typ = typ then
+      let r := step l.cfg l.st e
+      ({ l with st := r.1 } :: rest, r.2.map (fun o => (l.typ, o)))
+    else
+      let r := laneStep typ e rest
+      (l :: r.1, r.2)
+
+/-- `tick` moves the one clock all trackers read; any other event concerns one lane -/
+def nodeStep (n : Node) (typ : Nat) (e : Ev) : Node × List (Nat × Out) :=
+  match e with
+  | .tick _ => (n.map (fun l => { l with st := (step l.cfg l.st e).1 }), [])
+  | _ => laneStep typ e n
+
 end IdenaModel.PushPull
